@@ -11,7 +11,8 @@ open QiVerif.LockOrder QiVerif
 def T := Gen.LockOrder.fns
 def A := Gen.LockOrder.acq
 def nameOf (i : Nat) : String := (T[i]?.map (·.1)).getD "?"
-def mutexName (m : Nat) : String := (Gen.LockOrder.mutexes[m]?).getD (toString m)
+def mutexName (m : Nat) : String :=
+  if 900 ≤ m then s!"wait:{m - 900}" else (Gen.LockOrder.mutexes[m]?).getD (toString m)
 
 def hops (h m : Nat) : List (String × String) :=
   ((List.range T.length).flatMap (fun f => (fnEvs T f).filterMap (fun e => match e with
